@@ -7,6 +7,7 @@
   `(start_i/SR + delay, len)` with `start_i` the *post-rounding* start sample (`segMarks`).
 -/
 import BB.Proofs.Forge
+import BB.Proofs.G1Markers
 
 namespace BB.C03
 open BB
@@ -210,5 +211,177 @@ def exampleBP : BP :=
 example : (forgeBP exampleBP).toOption.map (fun f => (f.m1, f.m2)) =
     some ([0,1,1,1,0,0,0,0,0,0,0,0,0,0,0,1,1,1,1,1], [0,0,0,0,0,0,0,0,1,1,1,1,1,0,0,0,0,0,0,0]) := by
   decide +kernel
+
+/-! ### audit round: counts tied down, argmin, frame theorems on the forged result -/
+
+/-- `markers_spec` with the counts tied down: the sample counts `ns` whose cumulative sums are the
+    segment starts are exactly the rounded counts `round(d_i·SR)` of the resolved durations (stored
+    duration, or `t - elapsed` for a waituntil) - the *post-rounding* starts. -/
+theorem markers_spec_counts (b : BP) (f : Forged) (h : forgeBP b = .ok f) :
+    ∃ sr durs, b.SR = .num sr ∧ b.resolveWaits = .ok durs ∧ durs.length = b.segs.length ∧
+      (∀ d ∈ durs, 2 ≤ rhe (d * sr)) ∧
+      f.N = sumN (durs.map (fun d => (rhe (d * sr)).toNat)) ∧
+      f.m1.length = f.N ∧ f.m2.length = f.N ∧
+      (∀ x ∈ f.m1, x = 0 ∨ x = 1) ∧ (∀ x ∈ f.m2, x = 0 ∨ x = 1) ∧
+      (∀ k (hk : k < f.m1.length), f.m1[k] = 1 ↔
+        ∃ m ∈ b.marker1 ++ segMarks sr (·.m1) b.segs (starts (durs.map (fun d => (rhe (d * sr)).toNat)) 0),
+          (window f.N sr m).1 ≤ k ∧ k < (window f.N sr m).2) ∧
+      (∀ k (hk : k < f.m2.length), f.m2[k] = 1 ↔
+        ∃ m ∈ b.marker2 ++ segMarks sr (·.m2) b.segs (starts (durs.map (fun d => (rhe (d * sr)).toNat)) 0),
+          (window f.N sr m).1 ≤ k ∧ k < (window f.N sr m).2) := by
+  obtain ⟨sr, durs, ns, hsr, hd, hn, hbs, hf⟩ := (forge_ok_iff b f).mp h
+  obtain ⟨h2, hns⟩ := countsGo_ok sr durs ns hn
+  obtain ⟨sr', ns', hsr', hN, hl1, hl2, hb1, hb2, hw1, hw2⟩ := markers_spec b f h
+  -- `markers_spec` hides its witnesses; redo the two window clauses with the explicit counts
+  have hns' : ns = durs.map (fun d => (rhe (d * sr)).toNat) := hns
+  subst hf
+  refine ⟨sr, durs, hsr, hd, resolveGo_length _ _ _ hd, h2, by rw [← hns']; rfl, hl1, hl2, hb1, hb2, ?_, ?_⟩
+  · intro k hk
+    rw [← hns']
+    simp only [assemble] at hk ⊢
+    rw [paint_on_iff]
+    constructor
+    · rintro ⟨w, hw, h1, h2⟩
+      obtain ⟨m, hm, rfl⟩ := List.mem_map.mp hw
+      exact ⟨m, hm, h1, h2⟩
+    · rintro ⟨m, hm, h1, h2⟩
+      exact ⟨_, List.mem_map.mpr ⟨m, hm, rfl⟩, h1, h2⟩
+  · intro k hk
+    rw [← hns']
+    simp only [assemble] at hk ⊢
+    rw [paint_on_iff]
+    constructor
+    · rintro ⟨w, hw, h1, h2⟩
+      obtain ⟨m, hm, rfl⟩ := List.mem_map.mp hw
+      exact ⟨m, hm, h1, h2⟩
+    · rintro ⟨m, hm, h1, h2⟩
+      exact ⟨_, List.mem_map.mpr ⟨m, hm, rfl⟩, h1, h2⟩
+
+example : (forgeBP exampleBP).toOption.isSome = true := by decide +kernel
+
+/-- **General specification of the window start** (`np.abs(time - t).argmin()`): on a non-empty
+    time axis the start index lies on the axis, no sample of the axis is closer to `t·SR`, and every
+    earlier sample is strictly farther away (first minimiser).  This covers ON times before the
+    waveform (index 0), beyond its end (last index) and exact ties (the lower index). -/
+theorem window_start_argmin (N : Nat) (sr : Rat) (m : Mark) (hN : 0 < N) :
+    (window N sr m).1 < N ∧
+    (∀ k : Nat, k < N → |m.1 * sr - ((window N sr m).1 : ℚ)| ≤ |m.1 * sr - (k : ℚ)|) ∧
+    (∀ k : Nat, k < (window N sr m).1 → |m.1 * sr - ((window N sr m).1 : ℚ)| < |m.1 * sr - (k : ℚ)|) :=
+  nearestIdx_argmin N (m.1 * sr) hN
+
+/-- the same in seconds, for a positive sample rate: the start sample minimises `|k/SR - t_on|` -/
+theorem window_start_argmin_time (N : Nat) (sr : Rat) (m : Mark) (hN : 0 < N) (hsr : 0 < sr) :
+    (window N sr m).1 < N ∧
+    (∀ k : Nat, k < N → |((window N sr m).1 : ℚ) / sr - m.1| ≤ |(k : ℚ) / sr - m.1|) ∧
+    (∀ k : Nat, k < (window N sr m).1 → |((window N sr m).1 : ℚ) / sr - m.1| < |(k : ℚ) / sr - m.1|) :=
+  nearestIdx_argmin_time N m.1 sr hN hsr
+
+/-- ... and in a forged non-empty blueprint the axis is never empty -/
+theorem forged_axis_nonempty (b : BP) (f : Forged) (h : forgeBP b = .ok f) (hne : b.segs ≠ []) : 0 < f.N := by
+  obtain ⟨sr, durs, _, _, hlen, h2, hN, _⟩ := markers_spec_counts b f h
+  rw [hN]
+  cases durs with
+  | nil => exact absurd (List.eq_nil_of_length_eq_zero hlen.symm) hne
+  | cons d ds =>
+    have := h2 d (by simp)
+    simp only [List.map_cons, sumN]
+    omega
+
+example : window 20 10 ((-3 : ℚ), 1) = (0, 10) ∧ window 20 10 ((5 : ℚ), 1) = (19, 20) ∧
+    window 20 10 ((1/4 : ℚ), 1/5) = (2, 4) := by decide +kernel
+
+/-- **`setSegmentMarker` never changes the waveform side of the forged result**: forging after the
+    call (accepted or refused) gives the same blocks, the same number of samples, the same sample
+    rate and `newdurations`, or the same error, as forging before. -/
+theorem setSegmentMarker_keeps_wfm (b : BP) (name : String) (specs : Mark) (mid : Int) :
+    (forgeBP (b.setSegmentMarker name specs mid).st).map Forged.wfmPart = (forgeBP b).map Forged.wfmPart := by
+  obtain ⟨hs, _, _, hf, _, _⟩ := setSegmentMarker_fields b name specs mid
+  exact forgeBP_wfmPart_congr _ _ hs hf
+
+/-- the same, spelled out for a successful forge -/
+theorem setSegmentMarker_blocks_unchanged (b : BP) (name : String) (specs : Mark) (mid : Int)
+    (f : Forged) (h : forgeBP b = .ok f) :
+    ∃ f', forgeBP (b.setSegmentMarker name specs mid).st = .ok f' ∧
+      f'.blocks = f.blocks ∧ f'.N = f.N ∧ f'.SR = f.SR ∧ f'.newdurations = f.newdurations := by
+  obtain ⟨f', h1, h2⟩ := map_eq_ok _ _ _ (setSegmentMarker_keeps_wfm b name specs mid) f h
+  simp only [Forged.wfmPart, Prod.mk.injEq] at h2
+  exact ⟨f', h1, h2.1, h2.2.1, h2.2.2.1, h2.2.2.2⟩
+
+/-- ... and it leaves the *other* marker channel's array untouched -/
+theorem setSegmentMarker_other_channel (b : BP) (name : String) (specs : Mark) (mid : Int) :
+    (mid = 1 → (forgeBP (b.setSegmentMarker name specs mid).st).map (·.m2) = (forgeBP b).map (·.m2)) ∧
+    (mid ≠ 1 → (forgeBP (b.setSegmentMarker name specs mid).st).map (·.m1) = (forgeBP b).map (·.m1)) := by
+  obtain ⟨hs, ha1, ha2, hf, h2, h1⟩ := setSegmentMarker_fields b name specs mid
+  exact ⟨fun hm => forgeBP_m2_congr _ _ hs hf (h2 hm) ha2, fun hm => forgeBP_m1_congr _ _ hs hf (h1 hm) ha1⟩
+
+/-- **`removeSegmentMarker` never changes the waveform side of the forged result.** -/
+theorem removeSegmentMarker_keeps_wfm (b : BP) (name : String) (mid : Int) :
+    (forgeBP (b.removeSegmentMarker name mid).st).map Forged.wfmPart = (forgeBP b).map Forged.wfmPart := by
+  obtain ⟨hs, _, _, hf, _, _⟩ := removeSegmentMarker_fields b name mid
+  exact forgeBP_wfmPart_congr _ _ hs hf
+
+theorem removeSegmentMarker_blocks_unchanged (b : BP) (name : String) (mid : Int)
+    (f : Forged) (h : forgeBP b = .ok f) :
+    ∃ f', forgeBP (b.removeSegmentMarker name mid).st = .ok f' ∧
+      f'.blocks = f.blocks ∧ f'.N = f.N ∧ f'.SR = f.SR ∧ f'.newdurations = f.newdurations := by
+  obtain ⟨f', h1, h2⟩ := map_eq_ok _ _ _ (removeSegmentMarker_keeps_wfm b name mid) f h
+  simp only [Forged.wfmPart, Prod.mk.injEq] at h2
+  exact ⟨f', h1, h2.1, h2.2.1, h2.2.2.1, h2.2.2.2⟩
+
+theorem removeSegmentMarker_other_channel (b : BP) (name : String) (mid : Int) :
+    (mid = 1 → (forgeBP (b.removeSegmentMarker name mid).st).map (·.m2) = (forgeBP b).map (·.m2)) ∧
+    (mid ≠ 1 → (forgeBP (b.removeSegmentMarker name mid).st).map (·.m1) = (forgeBP b).map (·.m1)) := by
+  obtain ⟨hs, ha1, ha2, hf, h2, h1⟩ := removeSegmentMarker_fields b name mid
+  exact ⟨fun hm => forgeBP_m2_congr _ _ hs hf (h2 hm) ha2, fun hm => forgeBP_m1_congr _ _ hs hf (h1 hm) ha1⟩
+
+/-- **Assigning the absolute marker lists** (`bp.marker1 = [...]`, `bp.marker2 = [...]`) never
+    changes the waveform side of the forged result, and assigning one list leaves the other
+    channel's array as it was. -/
+theorem marker_assignment_keeps_wfm (b : BP) (l1 l2 : List Mark) :
+    (forgeBP { b with marker1 := l1, marker2 := l2 }).map Forged.wfmPart = (forgeBP b).map Forged.wfmPart ∧
+    (forgeBP { b with marker1 := l1 }).map (·.m2) = (forgeBP b).map (·.m2) ∧
+    (forgeBP { b with marker2 := l2 }).map (·.m1) = (forgeBP b).map (·.m1) :=
+  ⟨forgeBP_wfmPart_congr _ _ rfl rfl, forgeBP_m2_congr _ _ rfl rfl rfl rfl, forgeBP_m1_congr _ _ rfl rfl rfl rfl⟩
+
+theorem marker_assignment_blocks_unchanged (b : BP) (l1 l2 : List Mark) (f : Forged) (h : forgeBP b = .ok f) :
+    ∃ f', forgeBP { b with marker1 := l1, marker2 := l2 } = .ok f' ∧
+      f'.blocks = f.blocks ∧ f'.N = f.N ∧ f'.SR = f.SR ∧ f'.newdurations = f.newdurations := by
+  obtain ⟨f', h1, h2⟩ := map_eq_ok _ _ _ (marker_assignment_keeps_wfm b l1 l2).1 f h
+  simp only [Forged.wfmPart, Prod.mk.injEq] at h2
+  exact ⟨f', h1, h2.1, h2.2.1, h2.2.2.1, h2.2.2.2⟩
+
+/-- all marker operations of the public API at once (`BP.step`): none changes the waveform side -/
+theorem marker_ops_keep_wfm (b : BP) (o : BP.Op)
+    (ho : (∃ n s m, o = .setSegMarker n s m) ∨ (∃ n m, o = .removeSegMarker n m) ∨
+      (∃ l, o = .setMarker1 l) ∨ (∃ l, o = .setMarker2 l)) :
+    (forgeBP (b.step o).st).map Forged.wfmPart = (forgeBP b).map Forged.wfmPart := by
+  rcases ho with ⟨n, s, m, rfl⟩ | ⟨n, m, rfl⟩ | ⟨l, rfl⟩ | ⟨l, rfl⟩
+  · exact setSegmentMarker_keeps_wfm b n s m
+  · exact removeSegmentMarker_keeps_wfm b n m
+  · exact forgeBP_wfmPart_congr _ _ rfl rfl
+  · exact forgeBP_wfmPart_congr _ _ rfl rfl
+
+/-- **`changeArg` never changes a marker**: forging after any `changeArg` call (accepted, refused,
+    or refused half-way through a `replaceeverywhere` loop) gives the same two marker arrays, the
+    same number of samples, sample rate, `newdurations` and block lengths - or the same error - as
+    forging before.  (`changeArg` refuses waituntil segments, so no duration can move.) -/
+theorem changeArg_keeps_markers (b : BP) (name : String) (arg value : Val) (all : Bool) :
+    (forgeBP (b.changeArg name arg value all).st).map Forged.markPart = (forgeBP b).map Forged.markPart := by
+  have h := argFrame_changeArg b name arg value all
+  exact forgeBP_markPart_congr _ _ h.sr h.fn h.timing h.m1 h.m2 h.a1 h.a2
+
+/-- the same, spelled out for a successful forge -/
+theorem changeArg_markers_unchanged (b : BP) (name : String) (arg value : Val) (all : Bool)
+    (f : Forged) (h : forgeBP b = .ok f) :
+    ∃ f', forgeBP (b.changeArg name arg value all).st = .ok f' ∧
+      f'.m1 = f.m1 ∧ f'.m2 = f.m2 ∧ f'.N = f.N ∧ f'.blocks.map Blk.len = f.blocks.map Blk.len := by
+  obtain ⟨f', h1, h2⟩ := map_eq_ok _ _ _ (changeArg_keeps_markers b name arg value all) f h
+  simp only [Forged.markPart, Prod.mk.injEq] at h2
+  exact ⟨f', h1, h2.1, h2.2.1, h2.2.2.1, h2.2.2.2.2.2⟩
+
+example : (exampleBP.changeArg "ramp" (.str "stop") (.num 7) false).err = none ∧
+    (exampleBP.changeArg "ramp" (.str "stop") (.num 7) false).st ≠ exampleBP ∧
+    (exampleBP.setSegmentMarker "ramp2" (1/10, 1/5) 1).err = none ∧
+    (exampleBP.removeSegmentMarker "ramp" 1).err = none := by decide +kernel
 
 end BB.C03
